@@ -234,17 +234,25 @@ def setupZarrGroup (d : Docs) (f : Fmt) : Prog Unit := do
   if has kv (groupKey f []) then Prog.pure ()
   else emit ((groupDocs d f []).map (fun e => Op.set e.1 e.2))
 
+/-- the metadata documents of an array at `p` (format 2: `.zarray` then `.zattrs`) -/
+def arrayMetaOps (d : Docs) (f : Fmt) (p : List String) (a : Arr) : List Op :=
+  match f with
+  | .v2 => [.set ⟨p, .zarray⟩ (.raw a.mdoc), .set ⟨p, .zattrs⟩ (.raw d.zattrs)]
+  | .v3 => [.set ⟨p, .json⟩ (.raw a.mdoc)]
+
+/-- the chunk writes of an array at `p`; a chunk equal to the fill value is deleted, not written -/
+def chunkOps (p : List String) (a : Arr) : List Op :=
+  a.chunks.map (fun c => match c.2 with
+    | some b => Op.set ⟨p, .chunk c.1⟩ (.raw b)
+    | none => Op.del ⟨p, .chunk c.1⟩)
+
 /-- `group[p] = data`: overwrite-create an array -/
 def createArray (d : Docs) (kind : Kind) (f : Fmt) (p : List String) (a : Arr) : Prog Unit :=
   if !a.writable then raise (.other "zarr rejects dtype") else do
   deleteDir kind p
-  emit (match f with
-        | .v2 => [.set ⟨p, .zarray⟩ (.raw a.mdoc), .set ⟨p, .zattrs⟩ (.raw d.zattrs)]
-        | .v3 => [.set ⟨p, .json⟩ (.raw a.mdoc)])
+  emit (arrayMetaOps d f p a)
   emit (ancestorsNx d f p)
-  emit (a.chunks.map (fun c => match c.2 with
-                              | some b => Op.set ⟨p, .chunk c.1⟩ (.raw b)
-                              | none => Op.del ⟨p, .chunk c.1⟩))
+  emit (chunkOps p a)
 
 /-- `require_group` / `create_group` of a group that is not there yet; `exclusive`: fail if a node exists -/
 def createGroup (d : Docs) (f : Fmt) (p : List String) (exclusive : Bool) : Prog Unit := do
